@@ -687,13 +687,16 @@ class MPSBackendImpl:
             # Only do this potentially expensive step once and when needed.
             full_mpo = MPO(
                 extended_mpo_factors(
-                    self.hamiltonian.factors, self.well_prepared_qubits_filter
+                    self.hamiltonian.factors,
+                    self.well_prepared_qubits_filter,
+                    dim=self.dim,
                 )
             )
             full_state = MPS(
                 extended_mps_factors(
                     normalized_state.factors,
                     self.well_prepared_qubits_filter,
+                    dim=self.dim,
                 ),
                 num_gpus_to_use=None,  # Keep the already assigned devices.
                 orthogonality_center=get_extended_site_index(
